@@ -129,6 +129,10 @@ func (g *gen) content(n int, safe bool, depth int, linky bool) {
 func (g *gen) list(safe bool, depth, lvl int, linky bool) {
 	tag := sim.Pick(g.r, []string{"ul", "ol"})
 	g.b.WriteString("<" + tag + ">")
+	listStart := len(g.leaves)
+	// a list is itself a link-density candidate: link text anywhere inside it (a <nav> in an
+	// item) means none of its texts counts as "outside every candidate subtree"
+	defer func() { g.demoteIfLinky(listStart) }()
 	listSafe := safe
 	for k, m := 0, 1+g.r.Intn(4); k < m; k++ {
 		// an item may itself be an exclusion candidate (a class or id from the vocabulary on
